@@ -3,7 +3,7 @@ package main
 const trustedNote = "Trusted base: go/packages + go/types + go/ssa (x/tools v0.29.0) for the configuration analysed; the audit table audit.json (one named construct per exception, reason recorded); the argument in DESIGN.md that each clause is a necessary condition of the property. The check decides the named structural clauses on every path / table cell of the current source; it does not execute uGO programs and does not decide the behavioural statement as a whole."
 
 func init() {
-	for _, id := range []string{"C01", "C02", "C04", "C11", "C16", "C17", "C20"} {
+	for _, id := range []string{"C01", "C02", "C11", "C16", "C17", "C20"} {
 		notApplicable[id] = "static check for this property is not implemented in this revision of /verif (planned clauses: DESIGN.md section 3); no claim is made"
 	}
 	notApplicable["C03"] = "finally-exactly-once depends on the run-time history of a per-activation handler list addressed by static nesting depths; every structural rule considered either restates today's mechanism (and would fire on a correct redesign) or is a mechanism-presence check the existing tests already pin. No sound static argument in reach bounds the handler-list history (DESIGN.md section 4)."
@@ -55,6 +55,18 @@ func init() {
 		Note:      trustedNote,
 		Technique: "static analysis: single-writer / value-flow / dominance rules on SSA",
 		DesignRef: "DESIGN.md section 3, C12",
+	}
+	metas["C04"] = propMeta{
+		Text:      "Decides agreement between the writer and the reader of the serialization format: (tag-agree) for each codec type the type tags MarshalBinary writes are accepted by its UnmarshalBinary, and each DecodeObject arm constructs a codec type accepting exactly the arm's tag; (field-cover) every field of Bytecode, CompiledFunction, SourceFileSet and SourceFile is read on the encoding side and stored on the decoding side (three audited exclusions); (elide) no codec function decides on a float equality (zero elision must test the bit pattern, or -0 is lost); (rebind) in fixObjects every module item other than the module-name key reaches the re-binding assignment or an error return. Does not decide lengths, varint values, map ordering, gob fallback content, or that decoding re-creates equal behaviour. 'other': sibling-table agreement and path rules.",
+		Note:      trustedNote,
+		Technique: "static analysis: cross-check of sibling codec functions on the typed AST, field read/write sets on SSA, path rule over the rebind loop",
+		DesignRef: "DESIGN.md section 3, C04",
+	}
+	metas["C20"] = propMeta{
+		Text:      "Decides table agreement of the three conversion type switches: (inverse) for each of the ten plain uGO types the ToInterface arm yields a Go type whose ToObject arm yields the same uGO type, and conversely for the ten canonical Go types; (widths) every scalar conversion in ToObject, ToObjectAlt and ToInterface is range-inclusive for the analysed platform (signedness and bit width); (containers) container arms build a fresh container of the operand's length, convert each element with the same function and never return a package-level value, nil-able pass-through arms substitute an empty container; (errors) default arms report an error; (registry-key) the converter registry is looked up with reflect.TypeOf's result as the key of a map keyed by reflect.Type. Does not decide deep equality of nested values at run time (follows from the structural induction only) or reflect's behaviour. 'other'.",
+		Note:      trustedNote,
+		Technique: "static analysis: extraction and cross-check of sibling type-switch tables on the typed AST; value-flow check of the registry lookup on SSA",
+		DesignRef: "DESIGN.md section 3, C20",
 	}
 	metas["C05"] = propMeta{
 		Text:      "Decides structural necessary conditions of 'Compile returns Bytecode or an error, never panics': (panic-reach) every explicit panic statement reachable in the VTA call graph from Compile / compileScript / Compiler.Compile / Eval.Run (VM excluded) is swallowed on every call path by a deferred recover that type-asserts its value type, or is a named audited unreachable site; (fold-guard) every integer / % and signed shift in the optimizer's folding code has a dominating zero/sign test; (cap-check) every success return after Compiler.Bytecode() is dominated by the NumLocals limit test made on that very bytecode; (op-table) for each of the opcodes the operand table, name table, MakeInstruction arm (bytes appended = sum of widths), VM dispatch arm and the width handlers of MakeInstruction/ReadOperands agree. Does not decide termination, Go stack exhaustion on deep nesting, implicit index/nil panics in general, or that emitted jump targets are in range. 'other': reachability + dominance + table agreement, not an exploration of inputs.",
